@@ -108,7 +108,8 @@ def selftest(argv: list[str] | None = None) -> int:
         meta = sd / "meta.json"
         if meta.exists():
             mm = json.loads(meta.read_text())
-            seeded.append({"id": sd.name, "patch": str(sd / "patch.diff"), "expect": mm.get("expect", [mm.get("property")]), "why": mm.get("breaks", "")})
+            seeded.append({"id": sd.name, "patch": str(sd / "patch.diff"), "expect": mm.get("expect", [mm.get("property")]), "why": mm.get("breaks", ""),
+                           "silent": mm.get("silent", [])})
     allm = cat + seeded
     if argv:
         allm = [m for m in allm if m["id"] in argv or any(a in m.get("expect", []) for a in argv)]
